@@ -396,10 +396,17 @@ func c11Run(r *ev.Run, st *Stack, g *rng.R, caseID string, cfg c11Cfg, prop stri
 	}
 	// close destination 1 at a random point
 	if cfg.closeDst {
-		time.AfterFunc(time.Duration(g.Intn(8000))*time.Microsecond, func() {
+		// not at a fixed time but once the askers are well under way (10-50% of the asks issued): then calls are in flight at
+		// the node that closes, whatever the transport's pace
+		total := int64(cfg.askers * cfg.perAsker)
+		after := total/10 + int64(g.Intn(int(total*4/10)+1))
+		go func() {
+			for w := 0; w < 100000 && nAsks.Load() < after; w++ {
+				time.Sleep(100 * time.Microsecond)
+			}
 			closedAt.Store(stamp.Add(1))
-			go st.Nodes[1].Close()
-		})
+			st.Nodes[1].Close()
+		}()
 	}
 	adone := make(chan struct{})
 	go func() { awg.Wait(); close(adone) }()
